@@ -86,6 +86,16 @@ TraceShiftScores ==
                               <<"C10.state_after_assignment", e.exc # "" \/ good>>,
                               <<"DRIFT.array_sharing_model", ~good \/ asModelled>>}))
 
+TraceCopy ==
+  /\ IsEvent("Copy")
+  /\ LET e == Log[l]
+         o == st[e.h]
+     IN /\ st' = Append(st, o) /\ UNCHANGED memo
+        /\ ar' = Append(ar, IF e.how = "copy" THEN ar[e.h] ELSE <<100 + l, 150 + l>>)
+        /\ Report(e, Failing({<<"C10.raised", e.exc = "">>,
+                              <<"C10.copy_equals_source", e.exc # "" \/ ObjOfRec(e.post) = o>>,
+                              <<"C10.object_not_mutated", e.exc # "" \/ ObjOfRec(e.src_post) = o>>}))
+
 TraceQuery ==
   /\ IsEvent("Query") /\ UNCHANGED <<st, ar>>
   /\ LET e == Log[l]
@@ -108,7 +118,7 @@ TraceQuery ==
              <<"C10.repeatable", ~ok \/ ~seen \/ e.out = prev>>,
              <<"C10.independent_of_call_history", ~ok \/ (e.fresh_out = e.out /\ e.fresh_exact)>>}))
 
-Next == TraceNew \/ TraceSwap \/ TraceQuery \/ TraceSetEasy \/ TraceSetConfig \/ TraceSetScores \/ TraceShiftScores
+Next == TraceNew \/ TraceSwap \/ TraceQuery \/ TraceSetEasy \/ TraceSetConfig \/ TraceSetScores \/ TraceShiftScores \/ TraceCopy
 Spec == Init /\ [][Next]_vars
 AllConsumed == TLCGet("stats").diameter - 1 = Len(Log)
 =============================================================================
